@@ -185,8 +185,8 @@ def compare(ws, sch, rec, item, emit):
 def run(chk):
     quick = chk.tier == "quick"
     rng = random.Random(chk.seed * 7919 + 16)
-    nvar = 40 if quick else 200
-    ntext = 40 if quick else 100
+    nvar = 40 if quick else 120
+    ntext = 40 if quick else 60
     docs = []
     for b in base_docs():
         for v in range(nvar):
